@@ -46,11 +46,7 @@ class CollectionWorld(object):
             command.MAX_UNDO = max_undo
         else:
             command.MAX_UNDO = 50
-        self.pool = {
-            'd0': Data(label='d0', x=np.array([1., 2., 3., 4.]), y=np.array([4., 1., 3., 2.])),
-            'd1': Data(label='d1', x=np.array([2., 2., 5., 0.]), y=np.array([0., 3., 1., 5.])),
-            'd2': Data(label='d2', z=np.array([[1., 5., 2.], [4., 0., 3.]])),
-        }
+        self.pool = dict((n, self.fresh(n)) for n in ('d0', 'd1', 'd2'))
         d0 = self.pool['d0']
         self.cids = {'x': d0.id['x'], 'y': d0.id['y']}
         self.dc = DataCollection([self.pool[n] for n in initial])
@@ -63,6 +59,16 @@ class CollectionWorld(object):
             self.dc.new_subset_group(subset_state=self.make_state(i))
         if edit0 and self.dc.subset_groups:
             self.mode.edit_subset = [self.dc.subset_groups[0]]
+
+    @staticmethod
+    def fresh(name):
+        """A new dataset of the pool (never attached to any hub)."""
+        from glue.core import Data
+        if name == 'd0':
+            return Data(label='d0', x=np.array([1., 2., 3., 4.]), y=np.array([4., 1., 3., 2.]))
+        if name == 'd1':
+            return Data(label='d1', x=np.array([2., 2., 5., 0.]), y=np.array([0., 3., 1., 5.]))
+        return Data(label='d2', z=np.array([[1., 5., 2.], [4., 0., 3.]]))
 
     # -- ingredients ---------------------------------------------------------
     def make_state(self, k):
